@@ -68,6 +68,12 @@ public:
         {
             pdf_.emplace_back(in);
         }
+        else
+        {
+            // the PDF the first iteration was performed with is stored in the first result; keep
+            // it, so that a rollback to the very beginning starts from the same PDF again
+            pdf_.push_back(this->results().front().pdf());
+        }
     }
 
     /// Returns the parameter `alpha`, which is used to refine the PDF of VEGAS after each
